@@ -152,6 +152,7 @@ def sum_forward(a:np.ndarray, axis:'None| int | tuple', keepdims:bool):
     return np.sum(a, axis=axis, keepdims=keepdims)
 
 def sum_backward(grad:np.ndarray, a_shape:tuple, axis:'None| int | tuple', keepdims:bool):
+    if len(a_shape) == 0: axis = None # the forward pass accepts dim 0 / -1 on a 0-d tensor: nothing was reduced
     out_grad = np.zeros(a_shape, dtype=grad.dtype)
     if not keepdims and axis is not None:
         grad = unsqueeze_forward(grad, axis)
@@ -183,6 +184,7 @@ def max_forward(a, axis, keepdims):
     return np.max(a, axis=axis, keepdims=keepdims)
 
 def max_backward(grad, a, axis, keepdims, max_indices=None):
+    if a.ndim == 0: axis = None # the forward pass accepts dim 0 / -1 on a 0-d tensor (np.argmax does not)
     # Create mask of ones and zeros, where the maximum value is 1 
     mask = np.zeros_like(a)
     if max_indices is None:
@@ -203,6 +205,7 @@ def min_forward(a, axis, keepdims):
     return np.min(a, axis=axis, keepdims=keepdims)
 
 def min_backward(grad, a, axis, keepdims):
+    if a.ndim == 0: axis = None # the forward pass accepts dim 0 / -1 on a 0-d tensor (np.argmin does not)
     # Create mask of ones and zeros, where the minimum value is 1 
     mask = np.zeros_like(a)
     indices_min = np.argmin(a, axis=axis, keepdims=True)
